@@ -2,7 +2,7 @@
      Db::getSortArray                       /repo/src/Db/Db.cpp:4727      (stable ascending sort on the first coordinate)
      Db::getDistance1D (signed)             Db.cpp:836
      Db::getWeight / isActive               Db.cpp:2801 / 2927
-     Db::getSampleAsSTInPlace               Db.cpp:751   (the date is stored into the *code* field, line 767)
+     Db::getSampleAsSTInPlace               Db.cpp:751
      Vario::_calculateGeneralSolution1/2    /repo/src/Variogram/Vario.cpp:3322 / 3423
      Vario::keepPair                        Vario.cpp:4380
      BiTargetCheckGeometry::isOK            /repo/src/Geometry/BiTargetCheckGeometry.cpp:96
@@ -14,6 +14,8 @@
    Every finite double is a rational; square roots never decide anything here: decisions are taken on
    squares, and where a root is *output* (mean separation hh, madogram) a rigorous enclosure is carried.
    [Qred] calls are representation normalisations ([Qred q == q]); they have no counterpart in the C++.
+   The model follows the code AFTER the fixes fixes/C12_1..5.patch (date-mode loop, setDate, by-sample reset and
+   IDIRLOC, mean of _getStatistics, coincident samples and heterotopic test of _evaluateCovariance).
    No proofs in this file. *)
 From Coq Require Import List ZArith QArith Qabs Qround Qminmax Bool.
 From Gst Require Import lib.QAux.
@@ -110,9 +112,8 @@ Definition isOK (d : dirp) (asym : bool) (g : geo) : verdict :=
           let lt := if qltb 0 prod then qltb (g_dproj g) 0 || qltb p2 lim else qltb 1 (d_psmin d) in
           Acc (asym && lt).
 
-(* BiTargetCheckDate::isOK.  Db::getSampleAsSTInPlace calls P.setCode(date) instead of P.setDate(date)
-   (Db.cpp:767), so the date seen by the checker is always TEST. *)
-Definition st_date (s : sample) : option Q := None.
+(* BiTargetCheckDate::isOK on the dates loaded by Db::getSampleAsSTInPlace (P.setDate) *)
+Definition st_date (s : sample) : option Q := s_date s.
 Definition date_ok (d : dirp) (a b : sample) : bool :=
   match st_date a, st_date b with
   | Some d1, Some d2 => negb (qltb (d2 - d1) (d_dmin d)) && qltb (d2 - d1) (d_dmax d)
@@ -171,7 +172,8 @@ Definition flip (o : orient) : orient := match o with Oplus => Ominus | Ominus =
 
 (* ------------------------------------------------------------------ AVario::_evaluate* *)
 (* the pair context handed to the evaluators *)
-Record pctx := { p_w1 : Q; p_w2 : Q; p_dlo : Q; p_dhi : Q; p_ipas : nat; p_orient : orient }.
+Record pctx := { p_w1 : Q; p_w2 : Q; p_dlo : Q; p_dhi : Q; p_ipas : nat; p_orient : orient;
+                 p_coinc : bool }.   (* dist <= 0: the two samples coincide *)
 
 Definition mk_upd (asym : bool) (npas : nat) (pc : pctx) (iv jv : nat) (o : orient) (ww vlo vhi extra : Q) : upd :=
   {| u_addr := dir_address asym npas iv jv (p_ipas pc) o; u_sw := ww;
@@ -190,19 +192,22 @@ Definition eval_sym (npas : nat) (pc : pctx) (a b : sample) (ww : Q) (phi : Q ->
                           | _, _ => [] end) (seq 0 (S iv))
   | _, _ => []
   end.
-(* _evaluateCovariance / _evaluateCovariogram with do_asym = true *)
+(* _evaluateCovariance / _evaluateCovariogram with do_asym = true.  Each product needs only its own two values;
+   a pair of coincident samples (dist <= 0) shares both products between the two sides with half the weight. *)
 Definition eval_asym (npas : nat) (pc : pctx) (a b : sample) (ww : Q) (iv : nat) : list upd :=
-  match zval a iv, zval b iv with
-  | Some z11, Some z12 =>
-      flat_map (fun jv =>
-                  (match zval b jv with
-                   | Some z22 => [mk_upd true npas pc iv jv (p_orient pc) ww (z11 * z22) (z11 * z22) 0]
-                   | None => [] end) ++
-                  (match zval a jv with
-                   | Some z21 => [mk_upd true npas pc iv jv (flip (p_orient pc)) ww (z12 * z21) (z12 * z21) 0]
-                   | None => [] end)) (seq 0 (S iv))
-  | _, _ => []
-  end.
+  flat_map (fun jv =>
+              let o := p_orient pc in
+              let t1 := match zval a iv, zval b jv with Some z11, Some z22 => Some (z11 * z22) | _, _ => None end in   (* ok1 *)
+              let t2 := match zval b iv, zval a jv with Some z12, Some z21 => Some (z12 * z21) | _, _ => None end in   (* ok2 *)
+              if p_coinc pc then
+                (match t1 with Some v => [mk_upd true npas pc iv jv o (ww / 2) v v 0; mk_upd true npas pc iv jv (flip o) (ww / 2) v v 0]
+                             | None => [] end) ++
+                (match t2 with Some v => [mk_upd true npas pc iv jv o (ww / 2) v v 0; mk_upd true npas pc iv jv (flip o) (ww / 2) v v 0]
+                             | None => [] end)
+              else
+                (match t1 with Some v => [mk_upd true npas pc iv jv o ww v v 0] | None => [] end) ++
+                (match t2 with Some v => [mk_upd true npas pc iv jv (flip o) ww v v 0] | None => [] end))
+           (seq 0 (S iv)).
 
 Definition phi_vg (u v : Q) : Q * Q := (u * v / 2, u * v / 2).
 Definition phi_mado (u v : Q) : Q * Q := (sqrt_lo (Qabs (u * v)) / 2, sqrt_hi (Qabs (u * v)) / 2).
@@ -236,42 +241,47 @@ Definition pair_updates (cf : cfg) (d : dirp) (means : list Q) (a b : sample) : 
                let o := if qltb 0 (g_d2 g) && negb neg then Oplus else Ominus in
                evaluate cf (d_npas d) means
                         {| p_w1 := get_weight cf a; p_w2 := get_weight cf b;
-                           p_dlo := sqrt_lo (g_d2 g); p_dhi := sqrt_hi (g_d2 g); p_ipas := k; p_orient := o |} a b
+                           p_dlo := sqrt_lo (g_d2 g); p_dhi := sqrt_hi (g_d2 g); p_ipas := k; p_orient := o;
+                           p_coinc := qleb (g_d2 g) 0 |} a b
            end
   end.
 
 (* ------------------------------------------------------------------ pair enumeration *)
-(* inner loop: "if (getDistance1D(iech, jech) > maxdist) break; if (hasSel && !isActive(jech)) continue;" *)
-Fixpoint inner (cf : cfg) (md : Q) (a : sample) (js : list sample) : list (sample * sample) :=
+(* inner loop, partners AFTER the first sample in the sorted order (jjech > iiech):
+   "dx1 = x1(jech) - x1(iech); if (dx1 > maxdist) break; if (hasSel && !isActive(jech)) continue;" *)
+Fixpoint inner_after (cf : cfg) (md : Q) (a : sample) (js : list sample) : list (sample * sample) :=
   match js with
   | [] => []
-  | b :: r => if qltb md (x1 a - x1 b) then []
-              else if skip cf b then inner cf md a r else (a, b) :: inner cf md a r
+  | b :: r => if qltb md (x1 b - x1 a) then []
+              else if skip cf b then inner_after cf md a r else (a, b) :: inner_after cf md a r
   end.
-(* _calculateGeneralSolution1: "for iiech < nech - 1", ideb = hasDate ? 0 : iiech + 1.
-   [all] is the whole sorted list, [cur] its suffix starting at iiech. *)
-Fixpoint outer1 (cf : cfg) (md : Q) (all cur : list sample) : list (sample * sample) :=
+(* partners BEFORE it (jjech < iiech, date mode only): "if (-dx1 > maxdist) continue;" *)
+Fixpoint inner_before (cf : cfg) (md : Q) (a : sample) (js : list sample) : list (sample * sample) :=
+  match js with
+  | [] => []
+  | b :: r => if qltb md (x1 a - x1 b) then inner_before cf md a r
+              else if skip cf b then inner_before cf md a r else (a, b) :: inner_before cf md a r
+  end.
+(* the partners visited for the first sample [a]; [pre] = samples before it, [rest] = samples after it;
+   ideb = hasDate ? 0 : iiech + 1, "if (jjech == iiech) continue" *)
+Definition partners (cf : cfg) (md : Q) (pre : list sample) (a : sample) (rest : list sample) : list (sample * sample) :=
+  (if c_dateLoop cf then inner_before cf md a pre else []) ++ inner_after cf md a rest.
+(* _calculateGeneralSolution1: "for iiech < nech" *)
+Fixpoint outer1 (cf : cfg) (md : Q) (pre cur : list sample) : list (sample * sample) :=
   match cur with
   | [] => []
-  | a :: rest =>
-      match rest with
-      | [] => []
-      | _ :: _ => (if skip cf a then [] else inner cf md a (if c_dateLoop cf then all else rest))
-                  ++ outer1 cf md all rest
-      end
+  | a :: rest => (if skip cf a then [] else partners cf md pre a rest) ++ outer1 cf md (pre ++ [a]) rest
   end.
 (* the pairs reaching keepPair in _calculateGeneralSolution1 *)
 Definition reached1 (cf : cfg) (d : dirp) (l : list sample) : list (sample * sample) :=
-  let srt := sort_x1 l in outer1 cf (maxdist d) srt srt.
+  outer1 cf (maxdist d) [] (sort_x1 l).
 
 (* ------------------------------------------------------------------ Vario::_getStatistics (mean only) *)
-Definition test_value : Q := inject_Z 1233999999999999958672482500608.   (* the double TEST = 1.234e30 *)
-(* loop "for (iech = 0; iech < nvar; iech++)" (Vario.cpp:3007): only the first nvar samples are visited,
-   s1z accumulates the raw value (TEST included, no weight), s1w the weight *)
+(* weighted mean of a variable over the active samples where it is defined (0 when the total weight is not positive) *)
 Definition stat_mean (cf : cfg) (l : list sample) (iv : nat) : Q :=
-  let first := filter (is_active cf) (firstn (c_nvar cf) l) in
-  let s1w := fold_left (fun acc s => acc + get_weight cf s) first 0 in
-  let s1z := fold_left (fun acc s => acc + match zval s iv with Some z => z | None => test_value end) first 0 in
+  let act := filter (is_active cf) l in
+  let s1w := fold_left (fun acc s => match zval s iv with Some _ => acc + get_weight cf s | None => acc end) act 0 in
+  let s1z := fold_left (fun acc s => match zval s iv with Some z => acc + get_weight cf s * z | None => acc end) act 0 in
   if qleb s1w 0 then 0 else s1z / s1w.
 Definition stat_means (cf : cfg) (l : list sample) : list Q := map (stat_mean cf l) (seq 0 (c_nvar cf)).
 
@@ -365,8 +375,7 @@ Definition solution1 (cf : cfg) (d : dirp) (l : list sample) : list (list ocell)
   finish cf d l (accumulate1 cf d l).
 
 (* ------------------------------------------------------------------ solution 2 (by sample; forced for the covariogram) *)
-(* "Cumulate to the global variogram": the accumulators _sw/_gg/_hh are NOT reset between two first
-   samples (Vario.cpp:3453-3499), so each sample adds the ratios of everything accumulated so far. *)
+(* "Cumulate to the global variogram": the ratios of the accumulators of the current first sample *)
 Definition cumulate (w1 : Q) (arr sums : list cell) : list cell :=
   map (fun cs : cell * cell =>
          let (c, s) := cs in
@@ -375,19 +384,19 @@ Definition cumulate (w1 : Q) (arr sums : list cell) : list cell :=
                  a_hlo := qadd (a_hlo s) (w1 * a_hlo c / a_sw c); a_hhi := qadd (a_hhi s) (w1 * a_hhi c / a_sw c);
                  a_glo := qadd (a_glo s) (w1 * a_glo c / a_sw c); a_ghi := qadd (a_ghi s) (w1 * a_ghi c / a_sw c) |})
       (combine arr sums).
-Fixpoint outer2 (cf : cfg) (d : dirp) (means : list Q) (all cur : list sample) (arr sums : list cell) : list cell :=
+(* the accumulators are reset for every first sample (they hold its own pairs only) *)
+Fixpoint outer2 (cf : cfg) (d : dirp) (means : list Q) (pre cur : list sample) (sums : list cell) : list cell :=
   match cur with
   | [] => sums
   | a :: rest =>
-      if skip cf a then outer2 cf d means all rest arr sums
+      if skip cf a then outer2 cf d means (pre ++ [a]) rest sums
       else
-        let ps := inner cf (maxdist d) a (if c_dateLoop cf then all else rest) in
-        let arr' := apply_upds arr (flat_map (fun p => pair_updates cf d means (fst p) (snd p)) ps) in
-        outer2 cf d means all rest arr' (cumulate (get_weight cf a) arr' sums)
+        let own := apply_upds (zero_arr cf d)
+                     (flat_map (fun p => pair_updates cf d means (fst p) (snd p)) (partners cf (maxdist d) pre a rest)) in
+        outer2 cf d means (pre ++ [a]) rest (cumulate (get_weight cf a) own sums)
   end.
 Definition solution2 (cf : cfg) (d : dirp) (l : list sample) : list (list ocell) :=
-  let srt := sort_x1 l in
-  finish cf d l (outer2 cf d (stat_means cf l) srt srt (zero_arr cf d) (zero_arr cf d)).
+  finish cf d l (outer2 cf d (stat_means cf l) [] (sort_x1 l) (zero_arr cf d)).
 
 (* Vario::_calculateGeneral: "if (getCalcul() == COVARIOGRAM) flag_sample = 1" *)
 Definition compute_dir (cf : cfg) (flag_sample : bool) (d : dirp) (l : list sample) : list (list ocell) :=
